@@ -587,6 +587,22 @@ func c06Unregister(c *Ctx, k *core, a *arm) {
 
 	// the API side: return true only after receiving from the done channel
 	uf := c.W.fn("", "userCallbackUnregisterToken.unregister")
+	if uf == nil {
+		// the unregistering side under another shape (a closure returned by RegisterCallback, a plain function): the
+		// one function of the package that builds the unregister event
+		var cands []*ssa.Function
+		for _, g := range c.W.funcsIn("") {
+			for _, i := range allInstrs(g) {
+				if al, ok := i.(*ssa.Alloc); ok && litTypeName(al) == ".userCallbackUnregister" {
+					cands = append(cands, g)
+					break
+				}
+			}
+		}
+		if len(cands) == 1 {
+			uf = cands[0]
+		}
+	}
 	if !c.need(uf != nil, "dials.userCallbackUnregisterToken.unregister") {
 		return
 	}
